@@ -12,6 +12,7 @@
 -/
 import Proofs.Null
 import Proofs.NullSeq
+import Proofs.NullExt
 import SpyneModel.Generated.Facts18
 namespace SpyneModel.Props.C18
 open SpyneModel.Null SpyneModel.Generated
@@ -200,6 +201,60 @@ theorem last_context_breaks_null (F : Facts18) (h : F.auxResult = .lastContext) 
     nullCallFrom F s impl [a] kept pos kw = ctxResult F a.1 a.2 (nullRecv F a.1 pos kw) :=
   lastContext_breaks F h s impl a kept pos kw v hp
 
+/-! ### the string mode, member methods -/
+
+/-- `NullServer(app, ostr=True)`: the string it returns decodes to exactly what the wire client
+    gets — for every signature, program and conformant call, Ignored included (sent as empty) -/
+theorem ostr_eq_wire (P : ProtoCfg)
+    (hP : P = facts18.xml ∨ P = facts18.soap ∨ P = facts18.json) (τ : Val → Val) (s : Sig)
+    (impl : List Val → Result) (pos : List Val) (kw : List (String × Val))
+    (hprog : ProgramOkOn τ s impl (nullRecv facts18 s pos kw)) (hkw : KwOk facts18 kw)
+    (hcall : CallOk τ s pos kw) :
+    nullOstr facts18 P τ s impl pos kw = wireCall facts18 P τ s impl pos kw := by
+  have hg : P.Good := by rcases hP with h | h | h <;> subst h <;> decide
+  exact nullOstr_eq_wire facts18 (by decide) (by decide) P hg τ s impl pos kw hprog hkw hcall
+
+/-- the string mode without the replacement of `Ignored` (pinned tree): a TypeError instead of
+    the empty reply -/
+theorem ostr_serialized_breaks_null (F : Facts18) (h : F.ostrIgnored = .serialized) (P : ProtoCfg)
+    (τ : Val → Val) (s : Sig) (impl : List Val → Result) (keys : List String)
+    (hk : s.inKeys = some keys) (pos : List Val) (kw : List (String × Val))
+    (hlen : pos.length ≤ keys.length) (x : Val) (himpl : ∀ recv, impl recv = .value (.ignored x))
+    (hcb : ∃ v, cbSync F s (wrapOut F s (.ignored x)) = .ok v) :
+    nullOstr F P τ s impl pos kw = .exc "TypeError" :=
+  ostr_serialized_breaks F h P τ s impl keys hk pos kw hlen x himpl hcb
+
+/-- member methods (`@mrpc`): `call_wrapper` respawns `self` from the first argument and calls the
+    function with it; that is a transformation of the program shared by both paths, so NullServer
+    agrees with the wire for member methods of every class, with or without `_default_on_null` -/
+theorem member_eq_wire (P : ProtoCfg)
+    (hP : P = facts18.xml ∨ P = facts18.soap ∨ P = facts18.json) (τ : Val → Val) (s : Sig)
+    (m : Option Member) (impl : List Val → Result) (pos : List Val) (kw : List (String × Val))
+    (hprog : ProgramOk τ s impl) (hkw : KwOk facts18 kw) (hcall : CallOk τ s pos kw) :
+    wireViewP P s (nullCall facts18 s (memberImpl m impl) pos kw)
+      = wireCall facts18 P τ s (memberImpl m impl) pos kw := by
+  have hg : P.Good := by rcases hP with h | h | h <;> subst h <;> decide
+  exact null_eq_wire facts18 (by decide) P hg τ s (memberImpl m impl) pos kw
+    ((memberImpl_ok τ s m impl hprog).on _) hkw hcall
+
+/-- the instance is what the caller passed; a missing one is a Client.ResourceNotFound fault, or a
+    fresh instance with `_default_on_null` -/
+theorem member_respawn (m : Member) (x : Val) (rest : List Val) :
+    respawn m (x :: rest) =
+      (if x.isNone then
+         (if m.defaultOnNull then .ok (.obj m.cls (m.fields.map fun f => (f, Val.none)) :: rest)
+          else .fault "Client.ResourceNotFound")
+       else .ok (x :: rest)) := rfl
+
+/-- how the decorator reads `_body_style` / `_soap_body_style`: the latter only counts when the
+    former is given -/
+theorem body_style_reading (sb : Option String) (b : String) :
+    validateBodyStyle none sb = some .wrapped ∧
+    validateBodyStyle (some b) none =
+      (if b = "wrapped" then some .wrapped else if b = "bare" then some .bare
+       else if b = "out_bare" then some .outBare else none) :=
+  ⟨validateBodyStyle_default sb, validateBodyStyle_plain b⟩
+
 /-! ### body styles -/
 
 /-- `is_out_bare()` holds exactly for the methods decorated with a body style other than wrapped -/
@@ -384,6 +439,29 @@ example : let fmt : Sig := ⟨.wrapped, ["s", "w"], none, .many 2⟩
     callSeq { facts18 with slotsPerCall := false } fmt echo2 [] none
         [([.str "a", .int 8], []), ([.str "b"], [])]
       = [.ok (.seq [.str "a", .int 8]), .ok (.seq [.str "b", .int 8])] := ⟨rfl, rfl⟩
+
+/-- string mode, Ignored with two declared values: the empty reply; on the pinned tree a TypeError -/
+example : nullOstr facts18 facts18.xml id sW (fun _ => .value (.ignored (.int 7))) [] []
+    = .ok (.seq [.none, .none]) ∧
+    nullOstr { facts18 with ostrIgnored := .serialized } facts18.xml id sW
+      (fun _ => .value (.ignored (.int 7))) [] [] = .exc "TypeError" := ⟨rfl, rfl⟩
+/-- `class M: @mrpc(Integer, _returns=…) def pair(self, ctx, n)`: `server.service['M.pair'](M(a=5), 3)`,
+    and the same without the instance -/
+example : let sM : Sig := ⟨.wrapped, ["self", "n"], none, .many 2⟩
+    let m : Member := ⟨"M", ["a"], false, true⟩
+    nullCall facts18 sM (memberImpl (some m) echo2) [.obj "M" [("a", .int 5)], .int 3] []
+      = .ok (.seq [.obj "M" [("a", .int 5)], .int 3]) ∧
+    nullCall facts18 sM (memberImpl (some m) echo2) [.none, .int 3] [] = .fault "Client.ResourceNotFound" ∧
+    wireCall facts18 facts18.json id sM (memberImpl (some m) echo2) [.none, .int 3] []
+      = .fault "Client.ResourceNotFound" ∧
+    nullCall facts18 sM (memberImpl (some { m with defaultOnNull := true }) echo2) [.none, .int 3] []
+      = .ok (.seq [.obj "M" [("a", .none)], .int 3]) ∧
+    nullCall facts18 sM (memberImpl (some { m with whenOk := false }) echo2) [.obj "M" [("a", .int 5)], .int 3] []
+      = .fault "Client.InvalidInput" := ⟨rfl, rfl, rfl, rfl, rfl⟩
+example : validateBodyStyle (some "wrapped") (some "rpc") = some .bare ∧
+    validateBodyStyle (some "out_bare") (some "document") = some .wrapped ∧
+    validateBodyStyle none (some "rpc") = some .wrapped ∧
+    validateBodyStyle (some "Bare") none = none ∧ validateBodyStyle (some "bare") (some "x") = none := by decide
 
 /-- Ignored with two declared return values -/
 example : nullCall facts18 sW (fun _ => .value (.ignored (.int 7))) [] [] = .ok (.ignored (.int 7)) ∧
